@@ -117,10 +117,11 @@ func DecodeElement(kind string, b []byte) (n *Node, err error) {
 func (d *dec) message(b []byte, base int, top bool) *Node {
 	d.push("msg")
 	d.need(b, 8, "ofp_header")
-	if b[0] != OFVersion {
+	typ := int(b[1])
+	if b[0] != OFVersion && !(typ == 0 && b[0] > OFVersion) {
+		// (a hello carries the highest version its sender supports, which may be above 1.3)
 		d.fail("bad-version", "version byte %d, want 4", b[0])
 	}
-	typ := int(b[1])
 	length := int(be16(b[2:]))
 	d.slot(base+1, 1, "type")
 	d.slot(base+2, 2, "len")
@@ -149,6 +150,9 @@ func (d *dec) message(b []byte, base int, top bool) *Node {
 	case THello:
 		d.push("msg.hello")
 		n = N("msg.hello", U("xid", xid))
+		if b[0] != OFVersion {
+			n.With(U("version", uint64(b[0])))
+		}
 		off := 0
 		for off < len(body) {
 			d.push("hello_elem")
